@@ -7,26 +7,12 @@ import collections
 from . import scripts as S, readcamp as R, formats, kernels as K
 
 
-def _odd_count_before(script, line):
-    """does the script issue a read/write with an odd item count at or before `line`? (mono VOX: items = frames)"""
-    for l in (script or "").split("\n")[:(line + 1 if line else None)]:      # findings of the write phase carry line 0: whole script
-        t = l.split()
-        if len(t) >= 5 and t[0] in ("r", "w") and t[4].lstrip("-").isdigit() and int(t[4]) % 2 == 1:
-            return True
-    return False
-
-
 def known_class(fmt, ch, text, cat, script=None, line=None):
     """maps a problem to the id of a known finding, or None. Classes are decidable predicates on (format, channels,
     symptom, history); they mirror the hypotheses excluded by the `_partial` theorems."""
     if fmt is None:
         return None
-    # OKI/VOX ADPCM packs two samples per byte: a call with an odd item count transfers one sample too many, which
-    # also shifts everything read or written afterwards by one sample
-    # (exactly that class: the history must contain the odd call; the symptom must be one the extra sample explains -- the count of the call itself,
-    # the overrun of the caller's buffer (ASan abort), the data / position / end of file / frame count behind it; never a seek, an open, an invalid-call result)
-    if fmt.codec == 0x21 and script is not None and _odd_count_before(script, line) and cat in ("count", "short", "data", "position", "eof", "frames", "crash"):
-        return "KF-VOX-ODD"
+    # (KF-VOX-ODD -- OKI/VOX calls with an odd item count transferred one sample too many -- is repaired: no class is left for it)
     # RAW/DWVW has no header: the frame count is an estimate from the file length
     if fmt.major == 0x04 and fmt.codec in (0x40, 0x41, 0x42) and cat in ("eof", "frames"):
         return "KF-RAW-DWVW-FRAMES"
